@@ -25,7 +25,7 @@ META = {
         "in generated layouts, G10 programs (triple-quoted tokens of 2..6 lines inside rejected constructs with a known range, f-string debug fields "
         "laid out over several lines, followed by errors whose diagnosis spans lines), G7 f-string statements, G4 mutations; a fifth of the inputs "
         "gets a character str.splitlines() would split at (FF, VT, FS/GS/RS, NEL, U+2028/9) as a line of its own or at a random position; newline conventions LF / CRLF / lone CR / mixed, with and without final newline; each file is "
-        "parsed by parse_file(path) and by parse_string(bytes.decode('utf-8'), mode='exec') inside child interpreters started in 5 process "
+        "parsed by parse_file(path) and by parse_string(bytes.decode('utf-8-sig'), mode='exec') (every 16th file carries a UTF-8 signature) inside child interpreters started in 5 process "
         "environments {LC_ALL=C.UTF-8; LC_ALL=C; LC_ALL=C PYTHONCOERCECLOCALE=0 PYTHONUTF8=0 (ASCII preferred encoding); -X utf8=1; -X utf8=0}.  "
         "Oracle: inside each child the two canonical outcomes (tree dump with positions / exception class, message, line, column, end, text) are "
         "equal except for the file name; across children every outcome equals the UTF-8 child's.  A UnicodeDecodeError is an outcome like any "
@@ -62,7 +62,7 @@ def run(fn):
 for p in sorted(d.glob("*.xsh")):
     data = p.read_bytes()
     f = run(lambda: XP.parse_file(p))
-    s = run(lambda: XP.parse_string(data.decode("utf-8"), mode="exec"))
+    s = run(lambda: XP.parse_string(data.decode("utf-8-sig"), mode="exec"))  # (a UTF-8 signature is not part of the text)
     fc, sc = f.canon(filename=False), s.canon(filename=False)
     out[p.name] = {"file": json.loads(json.dumps(fc, default=repr)), "string": json.loads(json.dumps(sc, default=repr))}
 json.dump(out, open(sys.argv[3], "w"))
@@ -205,7 +205,8 @@ def search(rec, ctx):
     # run the children on chunks
     for a in range(0, len(batch), 150):
         chunk = batch[a : a + 150]
-        files = {f"f{i:04d}.xsh": src.encode("utf-8") for i, (src, _) in enumerate(chunk)}
+        # (every 16th file is saved with a UTF-8 signature, as some editors do)
+        files = {f"f{i:04d}.xsh": (b"\xef\xbb\xbf" if (a + i) % 16 == 5 else b"") + src.encode("utf-8") for i, (src, _) in enumerate(chunk)}
         res = run_children(files)
         for i, (src, stream) in enumerate(chunk):
             judge(rec, f"f{i:04d}.xsh", src, res, stream)
